@@ -11,13 +11,14 @@ What is proved here about the model (and tied to the code by the correspondence 
   flatten_sound, flatten_complete (search = declarative all-paths rule, for error-free runs under NoDupEmbed),
   ids_depth_monotone, dup_embed_counterexample (NoDupEmbed is necessary), lookup_exact_first, lookup_spec,
   fold_ascii, match_spec, zero_spec, omitZeroStructFields_equiv, omit_spec, unknown_spec.
-fallback_spec is proved as well.  Kept as a visible full statement (not proved): ids_depth_monotone_full (runs WITH an error).
+fallback_spec and ids_depth_monotone (every run) are proved as well; no full statement of this file is left open.
 -/
 import JsonV.Lemmas.FieldsFinish
 import JsonV.Lemmas.FieldsFold
 import JsonV.Lemmas.FieldsLookup
 import JsonV.Lemmas.FieldsEscape
 import JsonV.Lemmas.FieldsOcc
+import JsonV.Lemmas.FieldsDepth
 
 namespace JsonV.Props.C15
 open JsonV JsonV.Model JsonV.Model.Fields JsonV.Spec.FieldRule JsonV.Lemmas.Fields
@@ -143,11 +144,10 @@ theorem flatten_complete (g : Graph) (root : StructId) (herr : (flatten g root).
   rw [hi, ho0]
   exact hb
 
-/-- Discovery order is by non-decreasing depth (error-free run). -/
-theorem ids_depth_monotone (g : Graph) (root : StructId) (herr : (flatten g root).err = none) :
-    (search g root).all.Pairwise (fun a b => a.depth ≤ b.depth) := by
-  obtain ⟨P, hF, _⟩ := final_of_search (g := g) (root := root) herr
-  exact hF.allSorted
+/-- Discovery order is by non-decreasing depth, in every run (also one that records an error). -/
+theorem ids_depth_monotone (g : Graph) (root : StructId) :
+    (search g root).all.Pairwise (fun a b => a.depth ≤ b.depth) :=
+  search_all_sorted g root
 
 /-- The embedded fallback selected by the search is the declarative one: the fallback candidate that is strictly
 shallower than every other fallback candidate (error-free run, `NoDupEmbed`). -/
@@ -247,10 +247,6 @@ theorem fallback_spec (g : Graph) (root : StructId) (herr : (flatten g root).err
       have hlt := hother b (List.mem_cons_of_mem _ (List.mem_cons_self ..)) hba
       have hdep : (a.depth != b.depth) = true := by simp; omega
       exact ⟨a, by simp [hdep], hfi⟩
-
-/-- Discovery order is by non-decreasing depth, also for runs that record an error. -/
-def ids_depth_monotone_full : Prop :=
-  ∀ (g : Graph) (root : StructId), (search g root).all.Pairwise (fun a b => a.depth ≤ b.depth)
 
 /-! ### The hypothesis `NoDupEmbed` cannot be dropped: the known finding `dup-embed-kept` -/
 
